@@ -11,6 +11,83 @@ def req(name):
     return p
 
 
+def cookie_inputs(F):
+    """C06-R3 as a list of (ok, key, detail, loc): generate() is a pure function of exactly the four endpoint fields
+    and the two key words, each fed whole to the hash on every path to Ok - what makes the table key (C08, C09) and
+    the SYN-ACK sequence number (C06) identify the flow and nothing else."""
+    out = []
+
+    def chk(cond, key, detail, loc=''):
+        out.append((bool(cond), key, detail, loc))
+        return cond
+    g = F.fn(GENERATE)
+    pass
+    reads = set()
+    for (k, ch, bi, l, ty, dr) in field_accesses(g):
+        idx = [i for i, (a, _) in enumerate(ch) if a == CI]
+        if idx:
+            reads.add('.'.join(x[1] for x in ch[idx[0]:][:2] if x[0] not in ('variant', 'discr')))
+    chk(reads == {'ip.src', 'ip.dst', 'port.src', 'port.dst'}, 'generate:reads', 'ClientInfo fields read: %s' % sorted(reads), '%s:%d' % (g.file, g.line))
+    cone = F.cone([GENERATE])
+    ext = set(F.ext_calls(cone))
+    badext = sorted(c for c in ext if re.search(CLOCKS, c) or re.search(NONDET, re.sub('^<', '', c)))
+    allowed_ext = r'siphasher::|std::hash::Hasher|std::io::Error::new|PartialEq|convert::(Into|TryInto|From)|Option::<T>::unwrap|Result::<T, E>::unwrap|std::net::Ipv[46]Addr'
+    unknown = sorted(c for c in ext if not re.search(allowed_ext, c))
+    chk(cone == {GENERATE} and not badext and not unknown, 'generate:cone', 'local cone %s; external callees outside the hashing/conversion set: %s' % (sorted(cone), unknown + badext), '%s:%d' % (g.file, g.line))
+    statics_touched = [t['callee'] for _, t in g.calls(resolved_re=r'as std::ops::Deref>::deref$') if 'lazy' in str(t['resolved']).lower()]
+    chk(not statics_touched, 'generate:no-static', 'statics dereferenced: %s' % statics_touched)
+    # key
+    nk = g.calls(r'SipHasher24::new_with_keys$')
+    ok = len(nk) == 1
+    if ok:
+        a0, a1 = peel(g.argv(nk[0][0], 0)), peel(g.argv(nk[0][0], 1))
+
+        def keyidx(e, n):
+            return isinstance(e, tuple) and e[0] == 'entry' and Fn.root_of(e[1]) == ('deref', ('param', 2)) and \
+                [p for p in Fn.path_of(e[1])] and const_val(Fn.path_of(e[1])[-1][1]) == n
+        ok = keyidx(a0, 0) and keyidx(a1, 1)
+    chk(ok, 'generate:key', 'hasher keyed with (%s, %s)' % ((short(a0), short(a1)) if nk else ('?', '?')), g.loc(nk[0][0]) if nk else '')
+    # Ok returns
+    ok_rets = []
+    for bi, b in enumerate(g.blocks):
+        if b['cleanup']:
+            continue
+        for i, s in enumerate(b['stmts']):
+            rv = s['rv']
+            if rv['k'] == 'agg' and rv.get('adt') == 'std::result::Result' and rv.get('variant') == 'Ok':
+                ok_rets.append((bi, g._through(g.rvalue(rv, (bi, i)), (bi, i), 0)))
+    chk(len(ok_rets) == 1, 'generate:ok-sites', '%d Ok(..) construction sites' % len(ok_rets))
+    writes = [(bi, t['name'], peel(g.argv(bi, 1), casts=True)) for bi, t in g.calls(r'Hasher::write_\w+$')]
+
+    def is_field(e, fld, variant=None):
+        # entry:((*arg1.ip.src as Some).0 as V6).0   /  unwrap(entry:*arg1.port.src)
+        e = peel(e, casts=True)
+        if not (isinstance(e, tuple) and e[0] == 'entry'):
+            return False
+        path = [p[1] for p in Fn.path_of(e[1]) if p[0] == 'f' and p[1] != '0']
+        vars_ = [p[1] for p in Fn.path_of(e[1]) if p[0] == 'v']
+        return path == fld.split('.') and Fn.root_of(e[1]) == ('deref', ('param', 1)) and (variant is None or variant in vars_)
+    for bi, val in ok_rets:
+        fin = calls_in(val, r'Hasher>::finish$|Hasher::finish$')
+        v = peel(val)
+        inner = peel(v[2][0], casts=True) if isinstance(v, tuple) and v[0] == 'agg' else None
+        while is_call(inner, r'try_into$|unwrap$'):
+            inner = peel(inner[2][0], casts=True)
+        okv = isinstance(inner, tuple) and inner[0] == 'bin' and inner[1] == 'BitAnd' and const_val(inner[3]) == 0xFFFFFFFF and is_call(peel(inner[2]), r'finish$')
+        chk(okv and len(fin) == 1, 'generate:result', 'Ok value = %s' % short(val)[:100], g.loc(bi))
+        for fld in ['ip.src', 'ip.dst', 'port.src', 'port.dst']:
+            wb = [b for b, n, a in writes if is_field(a, fld)]
+            reach = g.reachable(0, removed_blocks=wb)
+            chk(bool(wb) and bi not in reach, 'generate:feeds:' + fld,
+                      '%d hasher writes of %s; Ok reachable without one: %s' % (len(wb), fld, bi in reach), g.loc(wb[0]) if wb else '')
+    # every hasher write is one of the four inputs (nothing else is mixed in), same object
+    for b, n, a in writes:
+        which = [fld for fld in ['ip.src', 'ip.dst', 'port.src', 'port.dst'] if is_field(a, fld)]
+        chk(len(which) == 1, 'generate:write:%s:%s' % (n, which[0] if which else short(a)[:30]), '%s(%s)' % (n, short(a)[:80]), g.loc(b))
+
+    return out
+
+
 def run(ctx):
     F = ctx.facts()
     rep = ctx.rep
@@ -66,70 +143,9 @@ def run(ctx):
     # common trailer: data offset & window (also C04), ports (C03)
 
     r3 = rep.rule('C06-R3', 'synackcookie::generate is a pure function of exactly (ip.src, ip.dst, port.src, port.dst, key[0], key[1]): each is fed to the SipHash state on every path to Ok, the result is the low 32 bits of finish(), and nothing else (static, clock, RNG) is reachable', floor=8)
-    g = F.fn(GENERATE)
-    rep.saw(g)
-    reads = set()
-    for (k, ch, bi, l, ty, dr) in field_accesses(g):
-        idx = [i for i, (a, _) in enumerate(ch) if a == CI]
-        if idx:
-            reads.add('.'.join(x[1] for x in ch[idx[0]:][:2] if x[0] not in ('variant', 'discr')))
-    rep.check(r3, reads == {'ip.src', 'ip.dst', 'port.src', 'port.dst'}, 'generate:reads', 'ClientInfo fields read: %s' % sorted(reads), '%s:%d' % (g.file, g.line))
-    cone = F.cone([GENERATE])
-    ext = set(F.ext_calls(cone))
-    badext = sorted(c for c in ext if re.search(CLOCKS, c) or re.search(NONDET, re.sub('^<', '', c)))
-    allowed_ext = r'siphasher::|std::hash::Hasher|std::io::Error::new|PartialEq|convert::(Into|TryInto|From)|Option::<T>::unwrap|Result::<T, E>::unwrap|std::net::Ipv[46]Addr'
-    unknown = sorted(c for c in ext if not re.search(allowed_ext, c))
-    rep.check(r3, cone == {GENERATE} and not badext and not unknown, 'generate:cone', 'local cone %s; external callees outside the hashing/conversion set: %s' % (sorted(cone), unknown + badext), '%s:%d' % (g.file, g.line))
-    statics_touched = [t['callee'] for _, t in g.calls(resolved_re=r'as std::ops::Deref>::deref$') if 'lazy' in str(t['resolved']).lower()]
-    rep.check(r3, not statics_touched, 'generate:no-static', 'statics dereferenced: %s' % statics_touched)
-    # key
-    nk = g.calls(r'SipHasher24::new_with_keys$')
-    ok = len(nk) == 1
-    if ok:
-        a0, a1 = peel(g.argv(nk[0][0], 0)), peel(g.argv(nk[0][0], 1))
-
-        def keyidx(e, n):
-            return isinstance(e, tuple) and e[0] == 'entry' and Fn.root_of(e[1]) == ('deref', ('param', 2)) and \
-                [p for p in Fn.path_of(e[1])] and const_val(Fn.path_of(e[1])[-1][1]) == n
-        ok = keyidx(a0, 0) and keyidx(a1, 1)
-    rep.check(r3, ok, 'generate:key', 'hasher keyed with (%s, %s)' % ((short(a0), short(a1)) if nk else ('?', '?')), g.loc(nk[0][0]) if nk else '')
-    # Ok returns
-    ok_rets = []
-    for bi, b in enumerate(g.blocks):
-        if b['cleanup']:
-            continue
-        for i, s in enumerate(b['stmts']):
-            rv = s['rv']
-            if rv['k'] == 'agg' and rv.get('adt') == 'std::result::Result' and rv.get('variant') == 'Ok':
-                ok_rets.append((bi, g._through(g.rvalue(rv, (bi, i)), (bi, i), 0)))
-    rep.check(r3, len(ok_rets) == 1, 'generate:ok-sites', '%d Ok(..) construction sites' % len(ok_rets))
-    writes = [(bi, t['name'], peel(g.argv(bi, 1), casts=True)) for bi, t in g.calls(r'Hasher::write_\w+$')]
-
-    def is_field(e, fld, variant=None):
-        # entry:((*arg1.ip.src as Some).0 as V6).0   /  unwrap(entry:*arg1.port.src)
-        e = peel(e, casts=True)
-        if not (isinstance(e, tuple) and e[0] == 'entry'):
-            return False
-        path = [p[1] for p in Fn.path_of(e[1]) if p[0] == 'f' and p[1] != '0']
-        vars_ = [p[1] for p in Fn.path_of(e[1]) if p[0] == 'v']
-        return path == fld.split('.') and Fn.root_of(e[1]) == ('deref', ('param', 1)) and (variant is None or variant in vars_)
-    for bi, val in ok_rets:
-        fin = calls_in(val, r'Hasher>::finish$|Hasher::finish$')
-        v = peel(val)
-        inner = peel(v[2][0], casts=True) if isinstance(v, tuple) and v[0] == 'agg' else None
-        while is_call(inner, r'try_into$|unwrap$'):
-            inner = peel(inner[2][0], casts=True)
-        okv = isinstance(inner, tuple) and inner[0] == 'bin' and inner[1] == 'BitAnd' and const_val(inner[3]) == 0xFFFFFFFF and is_call(peel(inner[2]), r'finish$')
-        rep.check(r3, okv and len(fin) == 1, 'generate:result', 'Ok value = %s' % short(val)[:100], g.loc(bi))
-        for fld in ['ip.src', 'ip.dst', 'port.src', 'port.dst']:
-            wb = [b for b, n, a in writes if is_field(a, fld)]
-            reach = g.reachable(0, removed_blocks=wb)
-            rep.check(r3, bool(wb) and bi not in reach, 'generate:feeds:' + fld,
-                      '%d hasher writes of %s; Ok reachable without one: %s' % (len(wb), fld, bi in reach), g.loc(wb[0]) if wb else '')
-    # every hasher write is one of the four inputs (nothing else is mixed in), same object
-    for b, n, a in writes:
-        which = [fld for fld in ['ip.src', 'ip.dst', 'port.src', 'port.dst'] if is_field(a, fld)]
-        rep.check(r3, len(which) == 1, 'generate:write:%s:%s' % (n, which[0] if which else short(a)[:30]), '%s(%s)' % (n, short(a)[:80]), g.loc(b))
+    rep.saw(GENERATE)
+    for ok_, key_, det_, loc_ in cookie_inputs(F):
+        rep.check(r3, ok_, key_, det_, loc_)
 
     r4 = rep.rule('C06-R4', 'the SYN arm is stateless and independent of history: no connection-table call, no payload inspection', floor=1)
     for h in syn_heads:
